@@ -227,4 +227,16 @@ CLAIMS['C17'] = {
     'note': _NOTE,
 }
 
+CLAIMS['C19'] = {
+    'text': 'SimPy resources: each content mutation of the six _do_put/_do_get dominated by '
+            'exactly the capacity guard (compared as normalised inequalities: neither weaker '
+            'nor stricter) or by exception evidence; mutated <=> succeed <=> True on every '
+            'path; Put/Get mirror images, cancel and Request.__exit__; policy queues only '
+            'mutated in place, served prefix removed exactly, (priority, time) key, '
+            'pre-emption conditions; store disciplines; no request-dependent _do_get behind a '
+            'prefix-stopping trigger. Levels/contents after a history and grant times are '
+            'not decided.',
+    'note': _NOTE,
+}
+
 NOT_APPLICABLE = {}
